@@ -50,22 +50,38 @@ def match_wide_tryfrom(cond, st, hooks):
     exactly (rule R22 checks the constants), so MIN <= t <= MAX; t.hi and t.lo are integers with
     |t.lo| <= ulp(t.hi)/2, hence each cast is in range and hi + lo (resp. MAX - (-lo) + 1 when
     t.hi == MAX as f64, where t.lo <= -1) stays within [MIN, MAX]."""
+    tv = None; lower = upper = False
     for c, v in st.known.items():
-        if v == 1 and tag(c) == "call" and c[1].startswith("core::ops::RangeInclusive::<Idx>::contains<TwoFloat,TwoFloat>"):
-            rng, tv = c[2], c[3]
-            if tag(tv) == "call" and tv[1] == "TwoFloat::trunc" and tag(rng) == "call" and "RangeInclusive::<Idx>::new<TwoFloat>" in rng[1]:
-                if cond is None:
-                    return False
-                # the asserted arithmetic only involves the truncated value's words and constants
-                ok = True
-                for n in all_nodes(cond):
-                    if tag(n) == "param":
-                        ok = False
-                    if tag(n) == "call" and n is not tv:
-                        ok = False
-                leaves = [n for n in all_nodes(cond) if tag(n) == "field" and n[1] is tv]
-                return bool(leaves)
-    return False
+        if v != 1 or tag(c) != "call":
+            continue
+        if c[1].startswith("core::ops::RangeInclusive::<Idx>::contains<TwoFloat,TwoFloat>"):
+            rng, x = c[2], c[3]
+            if tag(x) == "call" and x[1] == "TwoFloat::trunc" and tag(rng) == "call" and "RangeInclusive::<Idx>::new<TwoFloat>" in rng[1]:
+                tv = x; lower = upper = True
+        # the same test written out: LOWER <= t && t <= UPPER
+        if c[1] == "core::cmp::PartialOrd::le<TwoFloat,TwoFloat>" and len(c) == 4:
+            a, b = c[2], c[3]
+            if tag(b) == "call" and b[1] == "TwoFloat::trunc" and tag(a) == "agg":
+                tv = b; lower = True
+            if tag(a) == "call" and a[1] == "TwoFloat::trunc" and tag(b) == "agg":
+                tv = a; upper = True
+        if c[1] == "core::cmp::PartialOrd::ge<TwoFloat,TwoFloat>" and len(c) == 4:
+            a, b = c[2], c[3]
+            if tag(a) == "call" and a[1] == "TwoFloat::trunc" and tag(b) == "agg":
+                tv = a; lower = True
+            if tag(b) == "call" and b[1] == "TwoFloat::trunc" and tag(a) == "agg":
+                tv = b; upper = True
+    if tv is None or not (lower and upper) or cond is None:
+        return False
+    inside = set(all_nodes(tv)) - {tv}
+    for n in all_nodes(cond):
+        if n in inside:
+            continue
+        if tag(n) in ("param", "havoc"):
+            return False
+        if tag(n) == "call" and n is not tv:
+            return False
+    return bool([n for n in all_nodes(cond) if tag(n) == "field" and n[1] is tv])
 
 def match_wide_from(cond, st, hooks):
     """remainder arms of TwoFloat::from(wide integer): under a == MAX as f64 the value is within
